@@ -218,10 +218,11 @@ def impl(case):
                 setattr(classes[t], "__bconv__", staticmethod(fn(f)) if f >= 0 else 5)
         outs = []
         for op in case["ops"]:
-            if "res" in op:
-                outs.append(ident(resolve(classes[op["res"]])))
-            elif "resb" in op:
-                outs.append(ident(base.resolve(classes[op["resb"]])))
+            if "res" in op or "resb" in op:
+                try:
+                    outs.append(ident(resolve(classes[op["res"]]) if "res" in op else base.resolve(classes[op["resb"]])))
+                except Exception as e:       # a lookup never raises (a detector's TypeError/ValueError means "no")
+                    outs.append("raised:" + type(e).__name__)
             elif "conv" in op:
                 # conversion through the public entry point (library registries only)
                 try:
@@ -362,7 +363,7 @@ def tables(mode="fresh"):
 
 
 def gen_reg(rng, fn, bad_ok=True):
-    r = {"fn": fn, "prio": rng.choice([0, 0, 0, 0, 1, 1, 2, -1, 5]), "meta": None, "attr": None, "custom": None}
+    r = {"fn": fn, "prio": rng.choice([0, 0, 0, 0, 1, 1, 2, -1, -1, -2, 5]), "meta": None, "attr": None, "custom": None}
     k = rng.random()
     if k < 0.14:
         r.update(custom=rng.randrange(3), classes=[], sub=None)
@@ -400,23 +401,41 @@ def gen_reg(rng, fn, bad_ok=True):
 def gen_case(rng, maxlen=8, mode=None):
     mode = mode or rng.choices(["fresh", "base", "transformer", "encoder"], [45, 20, 20, 15])[0]
     lib = mode in ("transformer", "encoder")
+    tb = tables("fresh")
     n = rng.randint(2, maxlen)
     ops = []
     fid = 100
+    resolved = []          # targets already resolved (their answer may sit in a cache)
+    directed = rng.random() < 0.7
     for _ in range(n):
         k = rng.random()
         if k < 0.5:
             fid += 1
-            key = "regb" if mode == "base" and rng.random() < 0.4 else "reg"
+            key = "regb" if mode == "base" and rng.random() < 0.55 else "reg"
             earlier = [o[key] for o in ops if key in o]
             if earlier and rng.random() < 0.3:
                 # the SAME registration signature (criteria and priority) again with another converter, after whatever
                 # was registered in between: the latest registration must still win ties
                 ops.append({key: dict(rng.choice(earlier), fn=fid)})
             else:
-                ops.append({key: gen_reg(rng, fid, bad_ok=(mode != "base"))})
+                r = gen_reg(rng, fid, bad_ok=(mode != "base"))
+                if directed and resolved and rng.random() < 0.7:
+                    # a registration that accepts a class resolved earlier (through a superclass, the exact class, its
+                    # metaclass, an attribute or a detector): it must take effect at the next resolve of that class
+                    for _try in range(30):
+                        if well_formed(r) and any(accepts(tb, r, t) for t in resolved[-3:]):
+                            break
+                        r = gen_reg(rng, fid, bad_ok=False)
+                ops.append({key: r})
         else:
             t = rng.randrange(NT)
+            if directed and rng.random() < 0.7:
+                regs = [o.get("reg") or o.get("regb") for o in ops if "reg" in o or "regb" in o]
+                cand = [x for x in range(NT) if any(well_formed(r) and accepts(tb, r, x) for r in regs[-3:])]
+                pool = (resolved[-2:] * 2) + cand
+                if pool:
+                    t = rng.choice(pool)
+            resolved.append(t)
             if lib and t < NCLS and rng.random() < 0.5:
                 ops.append({"conv": t})
             elif mode == "base" and rng.random() < 0.3:
@@ -425,7 +444,7 @@ def gen_case(rng, maxlen=8, mode=None):
                 ops.append({"res": t})
     if not any("reg" in o for o in ops):
         ops.insert(0, {"reg": gen_reg(rng, 100, bad_ok=False)})
-    ops.append({"res": rng.randrange(NT)})
+    ops.append({"res": rng.choice(resolved) if resolved and rng.random() < 0.6 else rng.randrange(NT)})
     case = {"mode": mode, "cache": True if lib else rng.random() < 0.6, "ops": ops}
     if rng.random() < 0.3:
         case["shortcut"] = [[7, 900]] if rng.random() < 0.7 else [[7, -1]]
@@ -507,6 +526,8 @@ class C16(Check):
             out += exhaustive_cases(5) + exhaustive_base_cases()
         maxlen = 8 if tier == "quick" else 14
         out += [gen_case(rng, maxlen) for _ in range(n)]
+        if tier != "thorough":
+            out += rng.sample(exhaustive_base_cases(), 150)
         return out
 
     def model_line(self, case):
